@@ -44,6 +44,14 @@ Fixpoint rle (l : list Z) : list (Z * Z) :=
   end.
 Definition VR (l : list Z) : V := VL (map (fun p => VL [VZ (fst p); VZ (snd p)]) (rle l)).
 
+(* flat integer encoding of a value, printed by the harness to read results back:
+   VZ z -> 0, z ; VL l -> 1, length, elements *)
+Fixpoint flat (v : V) : list Z :=
+  match v with
+  | VZ z => [0; z]
+  | VL l => 1 :: Z.of_nat (length l) :: flat_map flat l
+  end.
+
 (* indices of the cases on which model and implementation disagree *)
 Fixpoint mismatches_from (i : nat) (l : list (V * V)) : list nat :=
   match l with
